@@ -194,6 +194,16 @@ def targets(ctx):
         b = guard("bytes", bytes, m)
         if guard("bytes_setattr", bytes, m_set) != b:
             out.append(("setattr_vs_ctor_bytes", "different encodings"))
+        if guard("len", len, m) != len(b):
+            out.append(("len_vs_bytes", f"len={len(m)} len(bytes)={len(b)}"))
+        from io import BytesIO
+
+        s_ = BytesIO()
+        guard("dump_delimited", m.dump, s_, betterproto.SIZE_DELIMITED)
+        s_.seek(0)
+        back = guard("load_delimited", cls().load, s_, betterproto.SIZE_DELIMITED)
+        if guard("bytes_delimited", bytes, back) != b:
+            out.append(("delimited_roundtrip", "dump/load with SIZE_DELIMITED changes the message"))
         # reference cross-check of the wire form
         try:
             r = c.rf(msg).FromString(b)
